@@ -21,11 +21,11 @@ META = {
 INVS = ["TypeOK", "PrefixOK", "FramingOK", "Emit"]
 
 
-def _cfg(size, maxlen, emit, view, zeros=1):
+def _cfg(size, maxlen, emit, view, zeros=1, errs=1):
     return vlib.cfg_text(
         spec="Spec",
         constants={"Size": size, "MaxLen": maxlen, "DEV_FinishKeepsBuffer": False, "EmitCases": emit,
-                   "MaxZeroReads": zeros},
+                   "MaxZeroReads": zeros, "MaxErrReads": errs},
         invariants=INVS, properties=["AppendOnly"], view="View" if view else None)
 
 
@@ -49,16 +49,19 @@ def _replay(ctx, binary, cases, what):
 
 def nontrivial(c):
     # more than one read, and at least one line boundary or CR inside
-    return len([k for k in c["chunks"] if k > 0]) > 1 and ("n" in c["stream"] or "r" in c["stream"])
+    return len([k for k in c["chunks"] if k != 0]) > 1 and ("n" in c["stream"] or "r" in c["stream"])
 
 
 def run(ctx):
     binary = vlib.build(ctx, "c15")
     emit_len = 6 if ctx.thorough else 5
     seen = set()
-    for size in (1, 2, 3, 4):
-        r = vlib.tlc(ctx, "LineReader", _cfg(size, emit_len, True, False),
-                     label="LineReader-emit-size%d" % size, timeout=1500)
+    # (size, stream length, reads-with-error allowed): the error-carrying reads double the behaviours, so they get one byte less
+    plan = [(sz, 6, 0) for sz in (1, 2, 3, 4)] + [(sz, 5, 1) for sz in (1, 2, 3, 4)] if ctx.thorough else \
+           [(sz, 5, 0) for sz in (1, 2)] + [(sz, 4, 0) for sz in (3, 4)] + [(sz, 4, 1) for sz in (1, 2, 3)]
+    for size, elen, errs in plan:
+        r = vlib.tlc(ctx, "LineReader", _cfg(size, elen, True, False, errs=errs),
+                     label="LineReader-emit-size%d-len%d-err%d" % (size, elen, errs), timeout=1500)
         for c in r.cases:
             if nontrivial(c):
                 seen.add((tuple(c["stream"]), tuple(c["chunks"]), size))
